@@ -53,6 +53,18 @@ The obligations are stated on semantics, not on one spelling (rules/C17_helpers.
   * stores = writes to `self.<field>` (assignments, container calls on `&mut self.<field>`) reached from a setter through
     helpers, delegated setters and closures, with the written values in the setter's own terms; iterables through the
     iterator algebra (truncating / filtering adapters lose elements)
+  * a vector collected by hand is the collection it was filled from (H.push_built / H.xalts): `let mut v = Vec::new();
+    for x in xs { v.push(g(x)) }`, `v.extend(xs)`, `xs.for_each(|x| v.push(g(x)))` are `xs.map(g).collect()` wherever
+    the vector is consumed afterwards — stored by a setter / constructor, iterated by a second loop (two-phase
+    forwarding: resolve all buildpacks first, forward them afterwards), handed to a bulk setter, returned by a private
+    helper; a push that some iterations skip is a filter, a loop that can be left early a truncation.  A loop over a
+    1:1 rendering of a config collection is a loop over the collection; what each iteration forwards is read through
+    the rendering.  Straight-line pushes make a literal (`Vec::new(); push(a); push(b)` is `vec![a, b]`)
+  * a closure called where it is defined (`let mut option = |name, value| ..; option("--env", v)`) is a private helper
+    (H.expand_local_closure_call); an argv vector that a private helper fills and returns is the argv it is
+  * values name a local by how it was made: what forwarding hands to a builder method, what a setter stores, the docker
+    exec words and the collections a constructor starts with must not be changed in place afterwards by anything but
+    appending calls (R3 arguments-unmodified, R6, R1 first-word, R6 defaults)
 """
 from . import C17_helpers as H
 from .lib import iters
@@ -292,9 +304,17 @@ def run(ctx, rep):
             v = vals[1] if len(vals) > 1 else ('unknown', 'no command argument')
             v = sl.inline_deep(v)
             lit = H.literal_sequence(prog, sl, v)
-            al = [(x, None, False) for x in lit] if lit else iters.alts(sl, v)
+            al = [(x, None, False) for x in lit] if lit else H.xalts(sl, v)
             ok = bool(al) and al[0][1] is None and not al[0][2] and strip(al[0][0]) == ('const', 'launcher')
-            rep.check(ok, 'R1', 'DockerExecCommand/first-word#%d' % n, site.where(), 'exec command starts with the constant launcher binary', 'docker exec command starts with %s' % vstr(strip(v))[:80])
+            # the values name a vector / array by how it was created: anything that is done to it in place before it
+            # is handed over, other than appending, may move the launcher away from the front (`words.reverse()`)
+            muts = [x for x in (H.in_place_changes(cs.fn, list(cs.args), sl) for cs in ([c] if site is c else [c, site])) if x]
+            subj = 'DockerExecCommand/first-word#%d' % n
+            if ok and muts and not any(k == 'bad' for k, _ in muts):
+                rep.unproven('R1', subj, site.where(), 'the words of the docker exec command are handed to %s before they are passed on: whether the launcher stays in front is not established' % muts[0][1])
+            else:
+                rep.check(ok and not muts, 'R1', subj, site.where(), 'exec command starts with the constant launcher binary',
+                          'docker exec command starts with %s' % vstr(strip(lit[0] if lit else v))[:80] if not (ok and muts) else 'the words of the docker exec command are changed in place by %s before they are handed over' % muts[0][1])
             n += 1
     rep.check(bool(sites), 'R1', 'DockerExecCommand/sites', '-', '%d construction site(s)' % len(sites), 'no DockerExecCommand construction found')
     S = Setters(prog, sl, argv_roles)
@@ -394,7 +414,10 @@ def _elementwise(E, sl, effs, cfg, fld, run, n_args):
     if len(effs) != 1:
         return False, '%d forwarding call(s)' % len(effs)
     e = effs[0]
-    lo = _loop_of(E, sl, e, cfg)
+    # the loop may range over a 1:1 rendering of the collection (pairs collected into a Vec first, `.iter().map(..)`):
+    # one iteration per element either way; what each iteration hands over is judged below on the arguments, read
+    # through the rendering (H.norm_elements)
+    lo = _loop_of(E, sl, e, cfg, mapped=True)
     if lo is None or lo[1] != fld:
         return False, 'not inside a loop over the whole of config.%s (loops: %s)' % (fld, [vstr(c[3])[:60] if c[3] else None for c in H.loop_contexts(E, e)])
     ctx = lo[0]
@@ -404,10 +427,10 @@ def _elementwise(E, sl, effs, cfg, fld, run, n_args):
         return False, 'some iteration over config.%s skips the forwarding call' % fld
     if len(run) == 1 and not H.always_before(E, e, (ctx[0], ctx[2]), run[0]):
         return False, 'the loop over config.%s is not passed on every path to the command invocation' % fld
-    got = [H.element_of(sl, a, cfg) for a in (e.args or ())[1:]]
+    got = [H.element_of(sl, H.norm_elements(sl, a), cfg) for a in (e.args or ())[1:]]
     want = [(fld, ())] if n_args == 1 else [(fld, (str(i),)) for i in range(n_args)]
     if got != want:
-        return False, 'arguments %s are not the element%s of config.%s' % ([vstr(strip(a))[:50] for a in (e.args or ())[1:]], '' if n_args == 1 else "'s components in order", fld)
+        return False, 'arguments %s are not the element%s of config.%s' % ([vstr(strip(H.norm_elements(sl, a)))[:50] for a in (e.args or ())[1:]], '' if n_args == 1 else "'s components in order", fld)
     return True, 'every element of config.%s' % fld
 
 
@@ -451,9 +474,29 @@ def _bulk(E, sl, e, cfg, fld, run, mapped=False):
     return True, 'the whole of config.%s' % fld
 
 
+def _unmodified_arguments(rep, sl, effs, subject, where):
+    """the symbolic values name a local by how it was made; what is done to it *in place* afterwards (`words.reverse()`,
+    `value.make_ascii_uppercase()`, `ports.pop()`) is not part of them.  So every argument handed to a builder method
+    must come from a local that nothing but appending calls borrow mutably (vectors filled by loops are read through
+    H.push_built, strings assembled with push_str through the concat values)."""
+    bad, unknown = [], []
+    for e in effs:
+        if not e.kind.startswith(('RUN:', 'PACK:')) or e.call is None:
+            continue
+        args = list(e.call.args) if e.kind.endswith(':new') else list(e.call.args[1:])
+        x = H.in_place_changes(e.call.fn, args, sl)
+        if x:
+            (bad if x[0] == 'bad' else unknown).append('%s before %s at %s' % (x[1], e.kind.split(':')[1], e.where()))
+    if unknown and not bad:
+        rep.unproven('R3', subject, where, 'a forwarded value is handed to %s: whether it still is the configured value is not established' % '; '.join(unknown[:3]))
+    else:
+        rep.check(not bad, 'R3', subject, where, 'no forwarded value is changed in place before it is handed to the command struct',
+                  'a forwarded value is changed in place by %s' % '; '.join(bad[:3]))
+
+
 def forwarding(ctx, rep, S):
     prog, sl = ctx.prog, ctx.slicer
-    E = Effects(prog, sl, vocab=_vocab(prog))
+    E = H.CallEffects(prog, sl, vocab=_vocab(prog))
     # ---- R3 container -------------------------------------------------------------------------------------
     sc = prog.find_one(r"^libcnb_test::test_context::TestContext::<'_>::start_container$")
     rep.analysed(sc)
@@ -496,6 +539,7 @@ def forwarding(ctx, rep, S):
             ok, why = _elementwise(E, sl, cs, cfg, fld, run, len(cs[0].args) - 1)
             why = '%s -> %s(element)' % (why, setter)
         rep.check(ok, 'R3', 'container/' + fld, cs[0].where() if cs else scw, why, 'ContainerConfig.%s is not forwarded to DockerRunCommand::%s (%s)' % (fld, setter, why))
+    _unmodified_arguments(rep, sl, effs, 'container/arguments-unmodified', scw)
     img = by.get('RUN:new', [])
     a0 = strip(img[0].args[0]) if len(img) == 1 and img[0].args else ('unknown',)
     rep.check(a0[0] == 'field' and a0[2] == 'image_name', 'R3', 'container/image', scw, 'runs the image built for this test', 'docker run does not use the built image')
@@ -513,6 +557,7 @@ def forwarding(ctx, rep, S):
     for e in effs:
         by.setdefault(e.kind, []).append(e)
     run = by.get('FN:run_command', [])
+    _unmodified_arguments(rep, sl, effs, 'build/arguments-unmodified', bw)
     seen = set()
     COPY = FNS['copy_app']
     is_copy = lambda v: any(x[0] == 'call' and x[1] == COPY for x in walk(v))
@@ -625,8 +670,11 @@ def forwarding(ctx, rep, S):
     for i, e in enumerate(bp):
         a = e.args[1] if len(e.args) > 1 else ('unknown', 'no argument')
         if bulk and ok:
-            al = iters.alts(sl, strip(H.norm_iterable(a)))
+            al = H.xalts(sl, strip(H.norm_iterable(a)))
             a = al[0][0] if len(al) == 1 else ('unknown', 'the elements of %s' % vstr(a)[:60])
+        # the element of a second loop over a vector the references were resolved into first (`for b in &config.buildpacks
+        # { resolved.push(resolve(b)) }` ... `for r in resolved { pack_command.buildpack(r) }`) is the resolved value
+        a = H.norm_elements(sl, a)
         a = sl.inline_deep(a, keep=PKG)
         verdicts = [H.buildpack_argument(sl, alt, cfg, PKG) for alt in H.alternatives(a, opaque=PKG)]
         bad = [v for v in verdicts if v[0] == 'bad']
@@ -775,7 +823,7 @@ def setters(ctx, rep, cmds, argv_roles, S):
                 continue
             f = prog.fns.get('%s::%s' % (ty, subj.split('::')[-1]))
             bad = [fld for fld, v in sorted(defaults.items())
-                   if (fill.get(fld) == 'add' or (fld in fill and ftys.get(fld, '').startswith('std::option::Option<'))) and not H.is_empty_default(v)]
+                   if (fill.get(fld) == 'add' or (fld in fill and ftys.get(fld, '').startswith('std::option::Option<'))) and not H.is_empty_default(v, prog)]
             rep.check(not bad, 'R6', subj + '/defaults', '%s:%d' % (f.file, f.line) if f else '-', 'collections and options the setters fill start empty',
                       '%s initialises %s with contents nobody configured' % (subj, bad))
             rep.extra['constructor_defaults'][subj] = sorted(defaults)
